@@ -228,8 +228,16 @@ pub open spec fn cmd_wf(c: Seq<u8>) -> bool {
 pub struct EntryCommand { _p: () }
 pub uninterp spec fn cmd_bytes(c: EntryCommand) -> Seq<u8>;
 impl EntryCommand {
+    // LINKED: units/journal_cmd/lemmas.rs, harness [C13.link.encryption.to_bytes] proves this contract from the real function, with
+    // `cmd_bytes` DEFINED there as the journal form `cmd_enc` (mirror edits there). The link added the `requires` (the real function
+    // needs the payload length to fit the u32 length word: otherwise the word is truncated and cmd_wf is false; the stub had hidden it).
     #[verifier::external_body]
-    pub fn to_bytes(&self) -> (r: ByteSeq) ensures r@ == cmd_bytes(*self), cmd_wf(r@) { unimplemented!() }
+    pub fn to_bytes(&self) -> (r: ByteSeq)
+        requires cmd_bytes(*self).len() <= 8 + u32::MAX,
+        ensures r@ == cmd_bytes(*self), cmd_wf(r@) { unimplemented!() }
+    // contract-less here (the result is only propagated with `?`). NOT linked: the real function (unit journal_cmd) is under contract
+    // only for frames whose declared lengths lie inside the buffer and PANICS on others (slice out of range); this unit makes no
+    // no-panic claim for the loader (that is unit journal's [C11.total], which calls it only after the checksum comparison)
     #[verifier::external_body]
     pub fn from_bytes(bytes: ByteSeq) -> (r: Result<EntryCommand, IggyError>) { unimplemented!() }
 }
@@ -237,11 +245,20 @@ impl EntryCommand {
 pub uninterp spec fn entry_bytes(e: StateEntry) -> Seq<u8>;
 pub uninterp spec fn crc_fields(index: u64, term: u64, leader_id: u32, version: u32, flags: u64, ts: u64, user_id: u32, context: Seq<u8>, command: Seq<u8>) -> u32;
 impl StateEntry {
+    // LINKED: units/journal/lemmas.rs, harness [C11.link.encryption.StateEntry.to_bytes] proves this contract from the real function,
+    // with `entry_bytes` DEFINED there as the layout `enc` (mirror edits there). The link added the `requires` (unit journal has the
+    // real function under contract for well-formed entries: context length fits its u32 word, framed command; the stub had hidden it).
     #[verifier::external_body]
-    pub fn to_bytes(&self) -> (r: ByteSeq) ensures r@ == entry_bytes(*self) { unimplemented!() }
+    pub fn to_bytes(&self) -> (r: ByteSeq)
+        requires self.context@.len() <= u32::MAX && cmd_wf(self.command@),
+        ensures r@ == entry_bytes(*self) { unimplemented!() }
+    // LINKED: units/journal/lemmas.rs, harness [C11.link.encryption.StateEntry.calculate_checksum], with `crc_fields` DEFINED there as
+    // crc32 over `crc_input` (mirror edits there). The link added the `requires` (the real function sums the lengths into a buffer
+    // capacity and writes `context.len() as u32`; the stub had hidden it).
     #[verifier::external_body]
     pub fn calculate_checksum(index: u64, term: u64, leader_id: u32, version: u32, flags: u64, timestamp: IggyTimestamp, user_id: u32,
                               context: &ByteSeq, command: &ByteSeq) -> (r: u32)
+        requires context@.len() <= u32::MAX && command@.len() <= 8 + u32::MAX,
         ensures r == crc_fields(index, term, leader_id, version, flags, timestamp.0, user_id, context@, command@),
     { unimplemented!() }
 }
